@@ -34,3 +34,29 @@ func VpH_C11_counts() {
 	vp.Assert(!b.InvalidPieceCount(), "piece-count-gate-accepts-every-valid-position")
 	vp.Cover("end")
 }
+
+// VpH_C11_reuse: the allocation-free parser fills the board it is given from scratch: parsing the same bytes into a
+// zero board and into a board that still holds an arbitrary earlier position gives the same verdict and, when
+// accepted, the same position (placement, side, rights, en-passant target, both counters).
+func VpH_C11_reuse() {
+	L := vp.Param("maxlen")
+	var buf [vpFenMax]byte
+	for i := 0; i < L; i++ {
+		buf[i] = byte(vp.BitsI("byte", i, 8))
+	}
+	n := int(vp.Bits("len", 6))
+	vp.Assume(n <= L)
+	var fresh Board
+	used := VpSymBoard(Color(vp.Bits("oldstm", 1) & 1))
+	used.STM = Color(vp.Bits("oldstm2", 1))
+	e1 := ParseFEN(&fresh, buf[:n])
+	e2 := ParseFEN(used, buf[:n])
+	vp.Assert((e1 == nil) == (e2 == nil), "verdict-does-not-depend-on-the-board-passed-in")
+	if e1 == nil && e2 == nil {
+		same := fresh.SquaresToPiece == used.SquaresToPiece && fresh.Pieces == used.Pieces && fresh.Colors == used.Colors &&
+			fresh.STM == used.STM && fresh.Castles == used.Castles && fresh.EnPassant == used.EnPassant &&
+			fresh.FiftyCnt == used.FiftyCnt && fresh.fullMoves == used.fullMoves
+		vp.Assert(same, "parsed-position-does-not-depend-on-the-board-passed-in")
+	}
+	vp.Cover("end")
+}
